@@ -155,14 +155,15 @@ Print Assumptions html_template_text_clean.
    Constructs cut by the end of input (only as the last item; WfDoc.ITextLt and the ICut items): text ending with "<" or "</"
    (the '<' belongs to the text); "<!--" body, "<![CDATA[" body, "<!doctype" after: one Comment / Text / Doctype token
    to the end; "<?" / "<!" / "</"+non-letter body: one bogus Comment; "</" name ws: one EndTag; "<" name attributes:
-   StartTag and the Attribute tokens; a raw-text element (script with its double-escape rules) whose content has no
+   StartTag and the Attribute tokens, where the last attribute's quoted value may lack its closing quote
+   (Wf.cut_quoted_value: AttrVal() is the opening quote and everything after it); a raw-text element (script with its double-escape rules) whose content has no
    end tag (Script.raw_len = length): the tag tokens and ONE Text to the end; an svg / math / xml element without its end
    tag whose bytes after the name are read by shiftXML's first loop up to the end of input (WfDoc.ICutForeign over the step
    function Wf.xml_step: the cut may fall in character data, inside a tag, a quoted attribute value, a comment, a CDATA
    section or a processing instruction; no NUL): ONE SVG / Math / XML token to the end, no error.  In each case the
    end-of-input report follows.
-   NOT covered by this theorem (correspondence + Go oracle only): cuts inside a quoted attribute value of an ordinary tag
-   and inside the whitespace at the end of a tag; an svg / math / xml element cut inside its own end tag; raw content that is empty (html_rawtext_end_exact
+   A tag cut inside the whitespace after its name or after an attribute: html_wellformed_cut_tag_ws below.
+   NOT covered (correspondence + Go oracle only): an svg / math / xml element cut inside its own end tag; raw content that is empty (html_rawtext_end_exact
    says where raw content ends in general); text containing a '<' that opens nothing (other than at the end of input);
    names containing '/'; templates. *)
 Theorem html_wellformed_tokens_partial :
@@ -171,6 +172,21 @@ Theorem html_wellformed_tokens_partial :
                map observe tr = doc_obs items ++ [mkObs ErrorT [] [] []].
 Proof. exact html_wellformed_tokens_proof. Qed.
 Print Assumptions html_wellformed_tokens_partial.
+
+(* C09 — well-formed documents, a tag cut inside trailing whitespace: complete constructs of the grammar (no plaintext,
+   no cut item) followed by "<" name attributes whitespace and the end of input (the name of an element that is not
+   svg / math / xml; the attributes as in a tag whose closer is the whitespace tws: an unquoted last value ends at
+   it, quoted values are closed): the tokens of the constructs, the StartTag and the Attribute tokens, then the
+   end-of-input report with empty Text(); the whitespace belongs to no token. *)
+Theorem html_wellformed_cut_tag_ws :
+  forall items name attrs tws, wf_doc items -> Forall (fun i => is_plain i = false) items ->
+    (exists c nm, name = c :: nm /\ is_letter c = true) -> Forall namechar name ->
+    (exists h, to_hash (map lower name) = Ok h /\ is_xml_hash h = false) -> all_ws tws -> wf_attrs attrs tws ->
+    let d := doc_bytes items ++ 60 :: name ++ concat (map attr_bytes attrs) ++ tws in
+    let os := doc_obs items ++ mkObs StartTagT (60 :: map lower name) (map lower name) [] :: map attr_obs attrs in
+    exists tr, run no_tmpl (length os + 1) (new_lexer d) = Ok tr /\ map observe tr = os ++ [mkObs ErrorT [] [] []].
+Proof. exact html_wellformed_cut_ws_proof. Qed.
+Print Assumptions html_wellformed_cut_tag_ws.
 
 (* C02 / C09 — end tags are faithful (full clause, after fixes 980d021 and 7de66fe): for every end-tag token before
    the first error, with nr = the length of its name (the bytes after "</" up to the first whitespace, '>' or '/'),
